@@ -56,6 +56,12 @@ import (
 	"golang.org/x/tools/go/ssa"
 )
 
+// memoFns: pure functions of concrete scalar arguments whose result is computed
+// once and shared by all paths (e.g. the Numscript compiler). The shared result
+// must not be mutated by the code under test.
+var memoFns = map[string]bool{}
+var memoTab = map[string]value{}
+
 func mustDeref(t types.Type) types.Type {
 	if p, ok := t.Underlying().(*types.Pointer); ok {
 		return p.Elem()
@@ -261,7 +267,7 @@ func visitInstr(fr *frame, instr ssa.Instruction) continuation {
 		panic(targetPanic{fr.get(instr.X)})
 
 	case *ssa.Send:
-		chanSend(fr.get(instr.Chan).(*chanv), fr.get(instr.X))
+		chanSend(fr.get(instr.Chan).(*chanv), cloneValue(fr.get(instr.X)))
 
 	case *ssa.Store:
 		store(mustDeref(instr.Addr.Type()), fr.get(instr.Addr).(*value), fr.get(instr.Val))
@@ -375,6 +381,8 @@ func visitInstr(fr *frame, instr ssa.Instruction) continuation {
 			fr.env[instr] = x[checkIndex(idx, len(x))]
 		case symStr:
 			fr.env[instr] = symStrIndex(x, idx)
+		case symAtom:
+			fr.env[instr] = symStrIndex(symStr{atomStrTerm(x.t)}, idx)
 		default:
 			panic(fmt.Sprintf("unexpected x type in Index: %T", x))
 		}
@@ -528,6 +536,35 @@ func callSSA(i *interpreter, caller *frame, callpos token.Pos, fn *ssa.Function,
 				X.res.intrSet[name] = true
 			}
 			return ext(fr, args)
+		}
+		if memoFns[name] {
+			key := name
+			ok := true
+			for _, a := range args {
+				switch a := a.(type) {
+				case string:
+					key += "\x00s:" + a
+				case int:
+					key += fmt.Sprintf("\x00i:%d", a)
+				case bool:
+					key += fmt.Sprintf("\x00b:%v", a)
+				default:
+					ok = false
+				}
+			}
+			if ok {
+				if r, hit := memoTab[key]; hit {
+					return r
+				}
+				if fn.Blocks != nil {
+					defer func(k string) {
+						// only cache normal returns
+						if fr.block == nil {
+							memoTab[k] = fr.result
+						}
+					}(key)
+				}
+			}
 		}
 		if isStubbed(fn) {
 			if X != nil && X.res != nil {
